@@ -1,4 +1,73 @@
-(* C04 - placeholder statement file, replaced below *)
-From VJ Require Import Model.Str.
-Theorem C04_placeholder : True. Proof. exact I. Qed.
-Print Assumptions C04_placeholder.
+(* C04 - directives reach the runtime with the right definition, value, arg and modifiers.
+   Statements only.
+
+   FULL STATEMENT (decided on every generated probe by [check_site], tags "C04:"):
+     forall E el s, no "C04:" entry in check_site E fuel el (fst (lower_el E el s)).
+   PROVED (partial): for every single directive attribute, in every spelling and value shape,
+   the one binding the transform builds is the one the independent reading of the attribute
+   ([attr_spec]) describes, and the attribute adds no prop, merge argument or slot; v-html /
+   v-text add exactly the innerHTML / textContent prop.  Not proved: composition over the
+   attribute list (a fold that appends) and the wrapping in withDirectives; both covered by
+   the oracle. *)
+From VJ Require Import Model.Str Model.Json Model.Ast Model.State Model.Util Model.Directive
+  Model.Lower Spec.JsxText Spec.OutViews Spec.Site Spec.SiteCheck Lemmas.SiteProofs.
+
+Definition C04_full_statement : Prop :=
+  forall E el s, filter (starts_with (s_ "C04:")) (check_site E 40 el (fst (lower_el E el s))) = [].
+
+(* the written name is read identically: prefix removed, first letter lower-cased, `:arg`,
+   `_modifier` suffixes *)
+Theorem C04_name_partial : forall name d,
+  spec_directive_name name = Some d -> model_name_parts name = (dn_name d, dn_arg d, dn_mods d).
+Proof. exact name_parts_spec. Qed.
+Print Assumptions C04_name_partial.
+
+(* exactly one binding, equal to the described one; nothing else is disturbed *)
+Theorem C04_binding_partial : forall E ic tag attrs all name value d a,
+  spec_directive_name name = Some d ->
+  sq "html" (dn_name d) = false -> sq "text" (dn_name d) = false ->
+  sq "model" (dn_name d) = false -> sq "slots" (dn_name d) = false ->
+  arg_not_void (dp_arg (spec_directive_parts d value)) ->
+  let a' := step_directive ic a name value in
+  exists dir,
+    a_dirs a' = a_dirs a ++ [dir]
+    /\ a_props a' = a_props a /\ a_margs a' = a_margs a /\ a_dyn a' = a_dyn a
+    /\ a_slots a' = a_slots a /\ a_st a' = a_st a
+    /\ fst (fst (attr_spec E ic tag all (JAttr name value))) = []
+    /\ forall s1, map view_dir (fst (build_directives [dir] tag attrs s1))
+                  = map Some (snd (fst (attr_spec E ic tag all (JAttr name value)))).
+Proof. exact normal_directive_refines. Qed.
+Print Assumptions C04_binding_partial.
+
+(* v-html / v-text *)
+Theorem C04_html_text_partial : forall E ic tag all name value d a,
+  spec_directive_name name = Some d ->
+  (sq "html" (dn_name d) = true \/ (sq "html" (dn_name d) = false /\ sq "text" (dn_name d) = true)) ->
+  user_value (html_text_value value) = true ->
+  let a' := step_directive ic a name value in
+  exists p,
+    a_props a' = a_props a ++ [p]
+    /\ map view_prop [p] = fst (fst (attr_spec E ic tag all (JAttr name value)))
+    /\ snd (fst (attr_spec E ic tag all (JAttr name value))) = []
+    /\ a_dirs a' = a_dirs a /\ a_margs a' = a_margs a /\ a_slots a' = a_slots a.
+Proof. exact html_text_refines. Qed.
+Print Assumptions C04_html_text_partial.
+
+(* modifiers: every listed modifier, each `true`, nothing else *)
+Theorem C04_modifiers_partial : forall ms q,
+  view_mods (match transform_modifiers ms q with Some m => m | None => Null end) = ms.
+Proof. exact view_mods_transform. Qed.
+Print Assumptions C04_modifiers_partial.
+
+(* non-vacuity: `v-xxx:foo={[x, y, ['a', 'b']]}` - the namespace argument wins, the list is read *)
+Example C04_nonvacuous :
+  let name := JNs (IdName (s_ "v-xxx")) (IdName (s_ "foo")) in
+  let x := Ident (s_ "x") 2 false in let y := Ident (s_ "y") 2 false in
+  let value := JExprC (Arr [Elem false x; Elem false y;
+                            Elem false (Arr [Elem false (mk_str (s_ "b")); Elem false (mk_str (s_ "a"))])]) in
+  exists d, spec_directive_name name = Some d
+            /\ dn_name d = s_ "xxx"
+            /\ dp_arg (spec_directive_parts d value) = Some (mk_str (s_ "foo"))
+            /\ sort_dedup (dp_mods (spec_directive_parts d value)) = [s_ "a"; s_ "b"]
+            /\ arg_not_void (dp_arg (spec_directive_parts d value)).
+Proof. eexists. vm_compute. repeat split. Qed.
